@@ -134,7 +134,7 @@ def text_cases(rng, tier):
     for s in strings:
         for p in (parsers if len(s) <= 2 or tier != "quick" else rng.sample(parsers, 6)):
             for kind in ("str", "bytes"):
-                if kind == "bytes" and (any(t >= 128 for t in s) or p == "newline"): continue
+                if kind == "bytes" and (any(t >= 256 for t in s) or p == "newline"): continue      # (bytes 128..255: not ASCII text, but the languages must still reject / delimit them)
                 if kind == "bytes" and isinstance(p, list) and p[0] in ("keyword", "ukeyword") and any(t >= 128 for t in p[1]): continue
                 cid += 1
                 yield cid, kind, p, s
@@ -218,7 +218,7 @@ def check_c14(pid, tier, seed):
     # &str vs &[u8] on ASCII text
     sb_bad = []
     for (p, s), d in byinput.items():
-        if "str" in d and "bytes" in d:
+        if "str" in d and "bytes" in d and all(t < 128 for t in s):
             res["stats"]["str_bytes_pairs"] += 1
             if d["str"] != d["bytes"]: sb_bad.append((p, s, d))
     res["sb_bad"] = sb_bad
